@@ -146,6 +146,8 @@ class RtpWorld:
         self.frame_of_seq = {}
         self.first_received = None       # position in send_order of the first media packet the receiver ever saw
         self.dropped_first = []          # sequence numbers of dropped first transmissions
+        self.outage_left = 0             # first transmissions still to be swallowed by the outage in progress
+        self.outage_used = False
         self.nacked = set()
         self.retransmitted = []          # (seq, was_rtx)
         self.violations = []
@@ -219,6 +221,11 @@ class RtpWorld:
                         self.pli_since_tap = True
             except Exception as e:
                 self.violations.append(("rtcp/unparsable", "receiver emitted RTCP that does not parse: %s" % e))
+        if first and self.outage_left > 0:
+            # a network outage in progress (one deviation): this first transmission is lost as well
+            self.outage_left -= 1
+            self.dropped_first.append(struct.unpack("!H", data[2:4])[0])
+            return
         self.wire.append(Datagram(self.wire_seq, src, data, first_tx=first))
 
     def _deliver(self, dg):
@@ -282,6 +289,9 @@ class RtpWorld:
                 ev.append(("deliver-head:" + d, 1, ("deliver", head.seq)))
             if faultable:
                 ev.append(("drop:" + d, 1, ("drop", head.seq)))
+                if recovery and self.spec.get("burst") and not self.outage_used:
+                    # ONE deviation: an outage that swallows this and the following first transmissions (a loss burst)
+                    ev.append(("outage:" + d, 1, ("outage", head.seq)))
                 if not head.dup:
                     ev.append(("dup:" + d, 1, ("dup", head.seq)))
             if len(q) >= 2 and (not recovery or q[1].first_tx):
@@ -324,6 +334,15 @@ class RtpWorld:
             self.wire.remove(dg)
             if dg.first_tx:
                 self.dropped_first.append(struct.unpack("!H", dg.data[2:4])[0])
+        elif k == "outage":
+            self.outage_used = True
+            self.outage_left = self.spec["burst"]
+            for dg in [x for x in self.wire if x.src == "S" and x.first_tx]:
+                if self.outage_left == 0:
+                    break
+                self.wire.remove(dg)
+                self.outage_left -= 1
+                self.dropped_first.append(struct.unpack("!H", dg.data[2:4])[0])
         elif k == "dup":
             dg = self._find(key[1])
             i = self.wire.index(dg)
@@ -333,7 +352,8 @@ class RtpWorld:
             self._next_frame()
         elif k == "trail":
             # traffic continues: further frames, sent without faults
-            self.trail -= 1
+            if self.outage_left == 0:
+                self.trail -= 1             # (frames swallowed by an outage still in progress do not count: traffic continues after it)
             self.script.append(2)
             self.faults_enabled = False
             self._next_frame()
@@ -492,6 +512,11 @@ def scenarios():
                 tag = "%s/%s/%s" % (codec, "rtx" if rtx else "nortx", "wrap" if seq0 > 1000 else "low")
                 S["any/" + tag] = dict(base, mode="any", frames=[1, 3, 2, 1], trail=0, horizon=3.0)
                 S["rec/" + tag] = dict(base, mode="recovery", frames=[2, 3, 1, 8, 1], trail=3, horizon=3.0)
+                if seq0 > 1000:
+                    # loss bursts: an outage of 17 / 33 consecutive first transmissions is ONE deviation (a NACK entry covers a
+                    # packet id and the 16 that follow)
+                    S["burst17/" + tag] = dict(base, mode="recovery", frames=[2, 12, 8, 3, 1], trail=3, horizon=3.0, burst=17)
+                    S["burst33/" + tag] = dict(base, mode="recovery", frames=[2, 12, 8, 9, 8, 3, 1], trail=3, horizon=3.0, burst=33)
     return S
 
 
@@ -509,6 +534,10 @@ def run(tier, seed):
         sb = []
         for n in names:
             full = ("VP8/rtx/wrap" in n) or ("H264/nortx/low" in n) or ("VP8/nortx/wrap" in n)
+            if n.startswith("burst"):
+                if "VP8" in n:
+                    sb.append((n, 1))
+                continue
             sb.append((n, 2 if full else 1))
     else:
         sb = [(n, 3 if n.startswith("rec/") else 2) for n in names]
@@ -522,7 +551,8 @@ def run(tier, seed):
              "byte-identical to a sent frame (a tail only first or after a PLI), in sending order with consistent mapped timestamps, "
              "NACKs list <= 128 numbers, no task dies. 'rec' scenarios: faults only on first transmissions of media packets, "
              "feedback and retransmissions get through, 3 more frames follow: every lost packet is NACKed and resent (as RTX iff "
-             "negotiated) and every frame reaches the decoder exactly once",
+             "negotiated) and every frame reaches the decoder exactly once. 'burst17/33' scenarios: as 'rec' with longer frames and "
+             "one more deviation kind, an outage that swallows 17 / 33 consecutive first transmissions",
         assumptions=["SRTP replaced by identity sessions (no handshake per execution; the crypto path is C04's)",
                      "decoder thread replaced by a no-op; decoder input tapped at the receiver's decoder queue",
                      "deviation bound k; fewer than 128 packets per scenario, so every lost packet is still in the sender's history"])
